@@ -422,6 +422,38 @@ Definition no_datetime (row : list mval) : bool :=
   forallb (fun it => match dt_form it with Some _ => false | None => true end) row.
 
 (* ---------------------------------------------------------------------------------- *)
+(* the other entry points (round 5): row classes made by Row.create_class, the         *)
+(* classmethod wrapper Row.from_bytes = cls(from_bytes_cython(data)), the compiled     *)
+(* decoder called directly                                                             *)
+(* ---------------------------------------------------------------------------------- *)
+Inductive row_cls :=
+| Base                                             (* orso.row.Row: _fields is None *)
+| Made (nfields : N) (tuples_only : bool)          (* Row.create_class(names, tuples_only): _fields has nfields names *)
+| Cython.                                          (* no class at all: from_bytes_cython(data) / the plain tuple *)
+
+(* Row.__new__(cls, data) with data a tuple: tuple.__new__(cls, data); the field names play no part
+   (they matter for dict arguments only, which from_bytes never passes) *)
+Definition row_new {A} (c : row_cls) (values : list A) : list A := values.
+
+(* cls.from_bytes(data) = cls(from_bytes_cython(data)) *)
+Definition from_bytes_cls (c : row_cls) (data : bytes) : result (list cell) :=
+  match decode_row data with
+  | Ok cs => Ok (row_new c cs)
+  | Raise e => Raise e
+  end.
+
+(* cls(values).as_bytes: packb(tuple(self)) - the width of a row is the number of values it holds *)
+Definition encode_row_cls (c : row_cls) (ts : N) (row : list mval) : result bytes := encode_row ts (row_new c row).
+
+(* the variant the model must be able to tell apart: pad with nulls up to the number of field names *)
+Definition cls_nfields (c : row_cls) : nat := match c with Made n _ => N.to_nat n | _ => O end.
+Definition from_bytes_padded (c : row_cls) (data : bytes) : result (list cell) :=
+  match decode_row data with
+  | Ok cs => Ok (cs ++ repeat (CVal MNil) (cls_nfields c - length cs))
+  | Raise e => Raise e
+  end.
+
+(* ---------------------------------------------------------------------------------- *)
 (* comparison functions used by the correspondence files                              *)
 (* ---------------------------------------------------------------------------------- *)
 Fixpoint mval_eqb (a b : mval) : bool :=
@@ -515,7 +547,17 @@ Fixpoint set_nth (l : bytes) (i : nat) (f : N -> N) : bytes :=
 
 Definition flip_at (r : bytes) (i b : N) : bytes := set_nth r (N.to_nat i) (fun x => flip_bit x b).
 
+(* polynomial digest used instead of a literal when an observed record is large and incompressible *)
+Definition digest (l : bytes) : N :=        (* h := (257 h + b + 1) mod 2^61, shifts and masks only: cheap in the VM *)
+  fold_left (fun h b => N.land (N.shiftl h 8 + h + b + 1) 2305843009213693951) l 0.
+
+Inductive enc_obs := EBytes (r : bytes) | EHash (n : N) (h : N) | ERaise (e : exn).
+
 Inductive mutation :=
+| Via (c : row_cls) (m : mutation)      (* the mutated record handed to class c's from_bytes (Cython: to from_bytes_cython) *)
+| EncVia (c : row_cls) (e : option enc_obs)   (* what cls(row).as_bytes gave; None = the very record of the base class *)
+| Paths (cs : list row_cls)             (* through every one of these entry points: same record, same decoded row, and the
+                                           sampled tears / extension / flips of [path_samples] all DataError *)
 | Tear (k : N)                    (* keep the first k bytes *)
 | TearAll                         (* every k < len: all observed as DataError *)
 | Extend (s : bytes)
@@ -523,16 +565,38 @@ Inductive mutation :=
 | FlipMask (mask : N).            (* the 48 single-bit changes of bytes 0..5; bit 8*byte+bit of the mask set =
                                      observed DataError, clear = observed the reference outcome *)
 
-Definition apply_mut (r : bytes) (m : mutation) : bytes :=
+Fixpoint apply_mut (r : bytes) (m : mutation) : bytes :=
   match m with
+  | Via _ m' => apply_mut r m'
   | Tear k => firstn (N.to_nat k) r
   | Extend s => r ++ s
   | Flip i b => flip_at r i b
-  | TearAll | FlipMask _ => r
+  | TearAll | FlipMask _ | EncVia _ _ | Paths _ => r
   end.
 
-Definition mut_matches (ref : outcome) (r : bytes) (mo : mutation * outcome) : bool :=
+(* the mutated records every second entry point is shown: tears at 0, 1, 13, 14, 15 and len-1 (those below len),
+   one appended zero byte, flips of bits 4 and 7 of byte 0, bit 0 of byte 2, bits 0 and 7 of byte 5 *)
+Definition path_samples (r : bytes) : list bytes :=
+  map (fun k => firstn k r) (filter (fun k => Nat.ltb k (length r)) [0; 1; 13; 14; 15; length r - 1]%nat)
+  ++ [r ++ [0]] ++ map (fun ib => flip_at r (fst ib) (snd ib)) [(0, 4); (0, 7); (2, 0); (5, 0); (5, 7)].
+
+Definition enc_matches (m : result bytes) (base : bytes) (e : option enc_obs) : bool :=
+  match m, e with
+  | Ok r1, None => bytes_eqb r1 base
+  | Ok r1, Some (EBytes r') => bytes_eqb r1 r'
+  | Ok r1, Some (EHash n h) => (len r1 =? n) && (digest r1 =? h)
+  | Raise x, Some (ERaise x') => exn_eqb x x'
+  | _, _ => false
+  end.
+
+Definition mut_matches (ts : N) (row : list mval) (ref : outcome) (r : bytes) (mo : mutation * outcome) : bool :=
   match fst mo with
+  | Via c m => outcome_matches (from_bytes_cls c (apply_mut r m)) (resolve ref (snd mo))
+  | EncVia c e => enc_matches (encode_row_cls c ts row) r e
+  | Paths cs =>
+      forallb (fun c => enc_matches (encode_row_cls c ts row) r None &&
+                        outcome_matches (from_bytes_cls c r) ref &&
+                        forallb (fun x => is_data_error (from_bytes_cls c x)) (path_samples r)) cs
   | TearAll => forallb (fun k => is_data_error (decode_row (firstn k r))) (seq 0 (length r))
   | FlipMask mask =>
       forallb (fun idx => outcome_matches (decode_row (flip_at r (idx / 8) (idx mod 8)))
@@ -551,12 +615,6 @@ Definition seq_map (n : N) : list (bytes * mval) :=      (* {key_of 0: 0, ..., k
 Definition nest_arr (n : N) (v : mval) : mval := N.iter n (fun x => MArr [x]) v.
 Definition nest_map (n : N) (v : mval) : mval := N.iter n (fun x => MMap [([107], x)]) v.
 
-(* polynomial digest used instead of a literal when an observed record is large and incompressible *)
-Definition digest (l : bytes) : N :=        (* h := (257 h + b + 1) mod 2^61, shifts and masks only: cheap in the VM *)
-  fold_left (fun h b => N.land (N.shiftl h 8 + h + b + 1) 2305843009213693951) l 0.
-
-Inductive enc_obs := EBytes (r : bytes) | EHash (n : N) (h : N) | ERaise (e : exn).
-
 (* a row case: timestamp, row, what as_bytes returned (or raised), what from_bytes returned on it,
    and the observed outcome of from_bytes on each mutated record *)
 Definition row_case := (N * list mval * enc_obs * outcome * list (mutation * outcome))%type.
@@ -565,8 +623,8 @@ Definition c01_check_row (c : row_case) : bool :=
   let '(ts, row, enc, dec, muts) := c in
   let dec := resolve (OOk (map OVal row)) dec in
   match encode_row ts row, enc with
-  | Ok r, EBytes r' => bytes_eqb r r' && outcome_matches (decode_row r') dec && forallb (mut_matches dec r') muts
-  | Ok r, EHash n h => (len r =? n) && (digest r =? h) && outcome_matches (decode_row r) dec && forallb (mut_matches dec r) muts
+  | Ok r, EBytes r' => bytes_eqb r r' && outcome_matches (decode_row r') dec && forallb (mut_matches ts row dec r') muts
+  | Ok r, EHash n h => (len r =? n) && (digest r =? h) && outcome_matches (decode_row r) dec && forallb (mut_matches ts row dec r) muts
   | Raise e, ERaise e' => exn_eqb e e'
   | _, _ => false
   end.
@@ -577,7 +635,7 @@ Definition c01_show_row (c : row_case) :=
   match encode_row ts row with
   | Ok r => (if len r <? 4096 then Ok r else Ok [len r; digest r],
              Some (match decode_row r with Ok cs => if len r <? 4096 then Ok cs else Ok [] | Raise e => Raise e end,
-                   map (fun mo => (fst mo, mut_matches dec r mo)) muts))
+                   map (fun mo => (fst mo, mut_matches ts row dec r mo)) muts))
   | Raise e => (Raise e, None)
   end.
 
